@@ -272,7 +272,7 @@ let abortive : int list ref = ref []
 let parse_e2e (o : string) : e2e_op =
   let rest = String.sub o 1 (String.length o - 1) in
   match o.[0] with
-  | 'c' | 'A' -> XConnect (nat_of_int (int_of_string rest))
+  | 'c' | 'A' | 'X' -> XConnect (nat_of_int (int_of_string rest))   (* X: and the service of that listener fails its readiness check *)
   | 'f' | 'F' -> XFinish (n_of_int (int_of_string rest))
   | 'P' -> XPause
   | 'R' -> XResume
@@ -293,6 +293,7 @@ let parse_e2e (o : string) : e2e_op =
                                   queue now (and were not lost with a dead worker's queue);
      in progress per worker     = started and not finished = w_picked. *)
 let blocked = ref false
+let armed = ref false
 let queued_prev : int list ref = ref []
 let where : (int, int * int) Hashtbl.t = Hashtbl.create 64     (* connection id -> (builder call of its listener, worker index) *)
 
@@ -315,6 +316,10 @@ let bld_step lz call_of (st, cid) (o : string) : (state * int) * string =
     blocked := true;
     ((st, cid), Printf.sprintf "B=/a%s" (show_act st))
   end else
+  if o.[0] = 'x' then
+    (* a readiness failure of one service is armed: nothing happens until a worker asks that service *)
+    ((st, cid), Printf.sprintf "%s=/a%s" o (show_act st))
+  else
   if o = "G" then begin
     (* graceful stop as the last op: waits for the connections in progress (C06); the accept/worker model of this driver only says
        whether any is in progress *)
@@ -371,7 +376,7 @@ let bld (line : string) : string =
   let lz = z_of_int l in
   let ops = List.filter (fun s -> s <> "") (String.split_on_char ' ' (List.assoc "ops" fields)) in
   let st0 = init (nat_of_int w) kinds in
-  poisoned := []; abortive := []; blocked := false; queued_prev := []; Hashtbl.reset where;
+  poisoned := []; abortive := []; blocked := false; armed := false; queued_prev := []; Hashtbl.reset where;
   let (_, outs) = List.fold_left (fun (acc, outs) o ->
     let (acc', s) = bld_step lz call_of acc o in (acc', s :: outs)) ((st0, 0), []) ops in
   String.concat " ; " (List.rev outs)
@@ -388,7 +393,7 @@ let bldgen (line : string) : string =
   let has c = String.contains flags c in
   let nl = List.length kinds in
   let acc = ref (init (nat_of_int w) kinds, 0) in
-  poisoned := []; abortive := []; blocked := false; queued_prev := []; Hashtbl.reset where;
+  poisoned := []; abortive := []; blocked := false; armed := false; queued_prev := []; Hashtbl.reset where;
   let out = ref [] in
   let emit o = let (a, _) = bld_step lz call_of !acc o in acc := a; out := o :: !out in
   for _ = 1 to geti "len" do
@@ -419,13 +424,24 @@ let bldgen (line : string) : string =
     if has 'k' && not !blocked && not backoff && not st.paused && available st.av
        && List.for_all (fun g -> match nth_error st.ws (nat_of_int g) with Some wk -> wk.w_open | None -> false) (List.map int_of_nat st.handles)
        && List.for_all (fun ls -> ls.l_backlog = []) st.lsts then add 1 `K;
+    (* a readiness failure (restart of one service on the worker that takes the connection): where the connection is dispatched at
+       once (so that worker asks its services now), on a listener that has a builder call of its own *)
+    let own_call tok = List.length (List.filter (fun t -> call_of (nat_of_int t) = call_of (nat_of_int tok)) (List.init nl (fun i -> i))) = 1 in
+    if has 'x' && not !blocked && not backoff && not st.paused && available st.av
+       && List.for_all (fun ls -> ls.l_backlog = []) st.lsts
+       && List.for_all (fun g -> match nth_error st.ws (nat_of_int g) with Some wk -> wk.w_open | None -> false) (List.map int_of_nat st.handles)
+       && List.exists own_call (List.init nl (fun i -> i)) then add 2 `X;
+    if has 'x' && !blocked && List.exists own_call (List.init nl (fun i -> i))
+       && List.exists (fun wk -> wk.w_open && wk.w_queue <> []) st.ws && not !armed then add 2 `Arm;
     if backoff then add 4 `T;
     (* real time passes between the ops of the implementation run: the 500 ms back-off is left at once *)
     (* ... except for one Pause, whose effect does not depend on when the deadline passes: nothing is observable until Resume *)
     (match (if backoff then (if has 'c' && not st.paused && rand 4 = 0 then `P else `T) else pick_from !c) with
      | `C -> emit (Printf.sprintf "c%d" (rand nl))
      | `A -> emit (Printf.sprintf "A%d" (rand nl))
-     | `Block -> emit "B" | `Unblock -> emit "b"
+     | `Block -> emit "B" | `Unblock -> (armed := false; emit "b")
+     | `X -> let toks = List.filter own_call (List.init nl (fun i -> i)) in emit (Printf.sprintf "X%d" (pick_from toks))
+     | `Arm -> let toks = List.filter own_call (List.init nl (fun i -> i)) in armed := true; emit (Printf.sprintf "x%d" (pick_from toks))
      | `F -> emit (Printf.sprintf "f%d" (pick_from picked))
      | `P -> emit "P" | `R -> emit "R"
      | `Q -> let shapes = if st.paused then [| "PR"; "PR"; "PPR"; "RP"; "RPR"; "PRP"; "RR" |] else [| "RP"; "RP"; "RRP"; "PR"; "PRP"; "RPR"; "PP" |] in
